@@ -546,6 +546,24 @@ var AncestorLoop = errors.New("ancestor loop detected")
 
 // DoAncestors calls the given function on this location and all of its ancestors in depth-first order.
 func (loc *Location) DoAncestors(ctx *Context, fn func(*Location) error) error {
+	return loc.doAncestors(ctx, fn, make(map[string]bool), make(map[string]bool))
+}
+
+// doAncestors does the work for DoAncestors.
+//
+// 'path' holds the locations that we are in the middle of visiting
+// (finding one of them again means the parents loop back), and 'done'
+// holds the locations already visited (so that an ancestor that's
+// reachable along two paths is only visited once).
+func (loc *Location) doAncestors(ctx *Context, fn func(*Location) error, path map[string]bool, done map[string]bool) error {
+	if path[loc.Name] {
+		return AncestorLoop
+	}
+	if done[loc.Name] {
+		return nil
+	}
+	path[loc.Name] = true
+	defer delete(path, loc.Name)
 
 	parents, err := loc.getParents(ctx)
 	if err != nil {
@@ -577,12 +595,13 @@ func (loc *Location) DoAncestors(ctx *Context, fn func(*Location) error) error {
 			if err != nil {
 				return err
 			}
-			if err = p.DoAncestors(ctx, fn); err != nil {
+			if err = p.doAncestors(ctx, fn, path, done); err != nil {
 				return err
 			}
 		}
 	}
 
+	done[loc.Name] = true
 	return fn(loc)
 }
 
